@@ -47,6 +47,23 @@ const VERSIONS: &[(&str, M2Version, u32)] = &[
     ("MoP", M2Version::MoP, 272),
 ];
 
+/// VERSIONS followed by header revisions between the canonical ones (files in the wild carry them; the library maps
+/// 257..259 to Vanilla, 261..263 to TBC, 265..271 to WotLK): written with their own version number, they must come back with it.
+const ALLV: &[(&str, M2Version, u32)] = &[
+    ("Vanilla", M2Version::Vanilla, 256),
+    ("TBC", M2Version::TBC, 260),
+    ("WotLK", M2Version::WotLK, 264),
+    ("Cataclysm", M2Version::Cataclysm, 272),
+    ("MoP", M2Version::MoP, 272),
+    ("rev257", M2Version::Vanilla, 257),
+    ("rev258", M2Version::Vanilla, 258),
+    ("rev259", M2Version::Vanilla, 259),
+    ("rev261", M2Version::TBC, 261),
+    ("rev263", M2Version::TBC, 263),
+    ("rev265", M2Version::WotLK, 265),
+    ("rev271", M2Version::WotLK, 271),
+];
+
 /// Structural trigger predicates. A model case carries at most one; `Clean` carries none.
 #[derive(Clone, Copy, PartialEq, Eq, Debug)]
 enum Risk {
@@ -464,7 +481,7 @@ macro_rules! push_kf {
 
 /// Build one model for header version `v`; `pattern[i]` is the size class of section i.
 fn gen_model(r: &mut Rng, rs: Rng, share: Share, vi: usize, risk: Risk, pattern: &[u8; NSECT], thorough: bool) -> (M2Model, u64, u64) {
-    let (_, mv, v) = VERSIONS[vi];
+    let (_, mv, v) = ALLV[vi];
     let density = if risk == Risk::StaticTrackHeaders { 0 } else { r.below(4) };
     // a section whose every track shares needs every track to carry key frames
     let density = if share == Share::AllTimestamps { 3 } else { density };
@@ -472,6 +489,7 @@ fn gen_model(r: &mut Rng, rs: Rng, share: Share, vi: usize, risk: Risk, pattern:
     let _ = g.thorough;
     let mut m = M2Model::default();
     m.header = M2Header::new(mv);
+    m.header.version = v;
     // header scalars
     let mut flags = g.r.next_u32() & !(0x8 | 0x0800_0000);
     match risk {
@@ -854,12 +872,14 @@ fn gen_model(r: &mut Rng, rs: Rng, share: Share, vi: usize, risk: Risk, pattern:
         e.position = [fx(g.r), fx(g.r), fx(g.r)];
         e.interp_type = g.r.next_u32() as u16;
         e.global_sequence = g.r.next_u32() as i16;
-        let with_ranges = risk == Risk::EventRanges && (i == 0 || g.r.bool());
+        // ranges (one per sequence: the usual pre-WotLK shape) occur with and without time stamps
+        let with_ranges = (risk == Risk::EventRanges && (i == 0 || g.r.bool())) || (risk == Risk::Clean && g.r.below(4) == 0);
         if g.want_track() || with_ranges {
             let nt2 = match g.r.below(3) {
                 0 => 1,
                 _ => 2 + g.r.usize(8),
             };
+            let nt2 = if with_ranges && risk == Risk::Clean && g.r.below(3) == 0 { 0 } else { nt2 };
             let nr = if with_ranges { 1 + g.r.usize(4) } else { 0 };
             let kf = g.kf(nr, nt2, 0, 4);
             // ranges of events stay private (they belong to the `event-ranges` trigger predicate); time stamps may be shared
@@ -1836,7 +1856,7 @@ fn pattern_for(r: &mut Rng, k: u64) -> [u8; NSECT] {
 
 fn model_case(c: &mut Case, rng: &mut Rng, rs: Rng, share: Share, vi: usize, risk: Risk, pattern: &[u8; NSECT], thorough: bool) {
     let (m, tracks, sharing) = gen_model(rng, rs, share, vi, risk, pattern, thorough);
-    let ctx = json!({"version": VERSIONS[vi].0, "risk": risk.tag(), "share": share.tag(), "pattern": pattern.iter().map(|d| d.to_string()).collect::<String>(), "tracks_with_keyframes": tracks, "tracks_sharing_an_array": sharing});
+    let ctx = json!({"version": ALLV[vi].0, "risk": risk.tag(), "share": share.tag(), "pattern": pattern.iter().map(|d| d.to_string()).collect::<String>(), "tracks_with_keyframes": tracks, "tracks_sharing_an_array": sharing});
     let populated = pattern.iter().filter(|&&d| d > 0).count();
     if populated >= 2 {
         c.count("models_with_several_sections_populated", 1);
@@ -1864,7 +1884,7 @@ const SHARING_SECTIONS: &[usize] = &[20, 21, 22, 23, 24, 25, 26, 27, 28];
 
 /// The smallest object that exhibits each risk feature, built from `M2Model::default()` (seed independent).
 fn minimal_model(vi: usize, risk: Risk) -> Option<M2Model> {
-    let (_, mv, v) = VERSIONS[vi];
+    let (_, mv, v) = ALLV[vi];
     let mut m = M2Model::default();
     m.header = M2Header::new(mv);
     match risk {
@@ -1958,7 +1978,7 @@ fn minimal_model(vi: usize, risk: Risk) -> Option<M2Model> {
 
 fn check_model(c: &mut Case, m: &M2Model, vi: usize, risk: Risk, ctx: Value) {
     let m = m.clone();
-    let (vlabel, mver, v) = VERSIONS[vi];
+    let (vlabel, mver, v) = ALLV[vi];
     // a case with a risk feature reports under one signature per (risk, clause family): the feature, not the collateral damage, is the defect
     let sigtag = |s: String| -> String {
         // the submesh re-encoding defect of convert() across the 260 boundary is independent of every risk feature and
@@ -2023,10 +2043,14 @@ fn check_model(c: &mut Case, m: &M2Model, vi: usize, risk: Risk, ctx: Value) {
     }
     // ---- (c)+(d) conversions
     let conv = M2Converter::new();
+    // a header revision belongs to the family of its canonical version: signatures name the family (the defect does not depend on
+    // the revision number), converting to its own family is the same-version clause, and it may keep its revision number
+    let family = if vi < VERSIONS.len() { vlabel } else { VERSIONS.iter().find(|x| x.1 == mver).map(|x| x.0).unwrap_or(vlabel) };
     for (ti, &(tlabel, tver, tv)) in VERSIONS.iter().enumerate() {
-        let pair = format!("{vlabel}->{tlabel}");
+        let pair = format!("{family}->{tlabel}");
+        let same_version = ti == vi || (vi >= VERSIONS.len() && tver == mver);
         // both entry points for the same-version clause, alternating ones for the cross-version pairs
-        let modes: &[bool] = if ti == vi { &[true, false] } else if (ti + vi) % 2 == 0 { &[true] } else { &[false] };
+        let modes: &[bool] = if same_version { &[true, false] } else if (ti + vi) % 2 == 0 { &[true] } else { &[false] };
         for &use_converter in modes {
         let r = trap(|| if use_converter { conv.convert(&m, tver) } else { m.convert(tver) });
         let cm = match r {
@@ -2042,11 +2066,11 @@ fn check_model(c: &mut Case, m: &M2Model, vi: usize, risk: Risk, ctx: Value) {
             Ok(Ok(x)) => x,
         };
         c.count("conversions", 1);
-        if cm.header.version != tv {
+        if cm.header.version != tv && !(same_version && cm.header.version == v) {
             c.violate(sigtag(format!("convert-version-field|{pair}")), format!("converted model carries version {} instead of {}", cm.header.version, tv), ctx.clone());
             continue;
         }
-        if ti == vi {
+        if same_version {
             // (c) same version: nothing may change
             c.count("conversions_same_version", 1);
             let pc = project(&cm, Ctx::full(v));
@@ -2192,6 +2216,28 @@ fn main() {
                 });
             }
         }
+    }
+    // ---- header revisions between the canonical versions (appended: the indices of everything above stay put)
+    idx = idx.max(1_000_000);
+    let n_rev: u64 = if thorough { 42_000 } else { 2_100 };
+    for k in 0..n_rev {
+        let i = idx;
+        idx += 1;
+        if !run.want(i) {
+            continue;
+        }
+        let mut rng = run.rng(i, 0);
+        let nrev = (ALLV.len() - VERSIONS.len()) as u64;
+        let vi = VERSIONS.len() + (k % nrev) as usize;
+        let risk = if k / nrev % 3 == 0 { Risk::Clean } else { RISK_SCHEDULE[((k / nrev) % RISK_SCHEDULE.len() as u64) as usize] };
+        let pattern = if risk == Risk::Clean { pattern_for(&mut rng, k / nrev) } else { pattern_for(&mut rng, 3) };
+        let pat_s: String = pattern.iter().map(|d| d.to_string()).collect();
+        let mut rs = run.rng(i, 1);
+        let share = share_for(&mut rs);
+        let class = format!("m2|{}|{}|{}|share={}", ALLV[vi].0, risk.tag(), pat_s, share.tag());
+        run.case(i, &class, json!({"kind": "m2", "version": ALLV[vi].0, "header_version": ALLV[vi].2, "risk": risk.tag(), "share": share.tag(), "pattern": pat_s, "sections": SECT_NAMES}), |c| {
+            model_case(c, &mut rng, rs, share, vi, risk, &pattern, thorough);
+        });
     }
     run.done();
 }
